@@ -365,6 +365,8 @@ def run(prog, rep, tier):
                 expect = cal_roles[i]
                 if expect == "F":
                     continue
+                if got[i] == "?":
+                    raise CheckerError("%s: cannot tell from which bound argument %d of %s derives (parameter names carry the after/before roles)" % (path, i + 1, c.d))
                 if got[i] != expect:
                     ok, why = False, "argument %d of %s receives %s, the callee expects the %s bound" % (i + 1, c.d, got[i], expect)
             rep.examined(R31w, key, sample={"wrapper": path, "callee": c.d, "args": got})
@@ -415,6 +417,8 @@ def run(prog, rep, tier):
     # argument roles at the call
     for i, want in ((1, "A"), (2, "B")):
         got = role_of_operand(fb, c.args[i])
+        if not got:
+            raise CheckerError("%s: cannot tell from which bound argument %d derives" % (fb.path, i + 1))
         rep.examined(R32, "%s|arg%d" % (key, i), sample={"site": fb.path, "arg": i + 1, "derives_from": sorted(got)})
         if got != {want}:
             rep.violation(R32, "%s|arg%d" % (key, i), "%s: argument %d of %s derives from %s, expected the %s bound" % (fb.path, i + 1, c.d, sorted(got), want))
@@ -479,6 +483,8 @@ def run(prog, rep, tier):
             rep.violation(R32, "%s|%s" % (eb.path, vname), "%s: a record judged %s still reaches the index insert" % (eb.path, vname))
     for i, want in ((1, "A"), (2, "B")):
         got = role_of_operand(eb, c.args[i])
+        if not got:
+            raise CheckerError("%s: cannot tell from which bound argument %d derives" % (eb.path, i + 1))
         rep.examined(R32, "%s|arg%d" % (eb.path, i), sample={"site": eb.path, "arg": i + 1, "derives_from": sorted(got)})
         if got != {want}:
             rep.violation(R32, "%s|arg%d" % (eb.path, i), "%s: argument %d of %s derives from %s, expected the %s bound" % (eb.path, i + 1, c.d, sorted(got), want))
